@@ -888,8 +888,22 @@ func c07R4(c *Ctx, p *Prog) {
 		fmt.Sprintf("words containing %q are printed unquoted although the tokenizer treats them specially", missing))
 	// bare-word scanner terminators: the function(s) in parse that range over the query and call isOp
 	n := 0
+	// predicates that belong to the quoting side (called by quoteWord or handed by it to a library scan)
+	quoting := map[*ssa.Function]bool{}
+	eachInstr(quote, func(_ *ssa.BasicBlock, in ssa.Instruction) {
+		if call, ok := in.(*ssa.Call); ok {
+			if sc := call.Call.StaticCallee(); sc != nil {
+				quoting[sc] = true
+			}
+			for _, a := range call.Call.Args {
+				if f, ok := a.(*ssa.Function); ok {
+					quoting[f] = true
+				}
+			}
+		}
+	})
 	for _, fn := range p.Funcs(pk) {
-		if fn == quote || fn == isOp || fn == isStartOp {
+		if fn == quote || fn == isOp || fn == isStartOp || quoting[fn] {
 			continue
 		}
 		_, calls := runeConsts(fn)
@@ -910,6 +924,18 @@ func c07R4(c *Ctx, p *Prog) {
 		}
 		n++
 		c.Check(calls["unicode.IsSpace"], R, fnName(fn)+":bare-word-terminators", p.pos(fn.Pos()), "a bare word ends at an operator or any Unicode space", "a bare word does not end at Unicode space")
+		// and at nothing else: the scanner compares the characters of a word with no further constants (a quote, a
+		// digit, a dash inside a word are part of the word)
+		consts, _ := runeConsts(fn)
+		var extra []string
+		for k := range consts {
+			if !ops[k] {
+				extra = append(extra, fmt.Sprintf("%q", k))
+			}
+		}
+		sort.Strings(extra)
+		c.Check(len(extra) == 0, R, fnName(fn)+":bare-word-extra-terminators", p.pos(fn.Pos()), "nothing but operators and spaces ends a bare word",
+			"the bare-word scanner also treats "+strings.Join(extra, ", ")+" specially: a word containing that character (5\", o\"clock) no longer denotes itself — it is split or rejected, and malformed input such as a:b\"c\":d is accepted")
 	}
 	c.Floor(R, "bare-word scanners", n, 1)
 }
